@@ -648,6 +648,28 @@ def run(only=None):
         hist.kept_results(s, "deinterleave_all_bits", [({"message": m}, (lambda m=m: BPTC19696.deinterleave_all_bits(bitarray(ref_encode(m))))) for m in km], obs=lambda r: r.to01())
         s.done()
 
+    if want("callers_buffer_overwritten_in_place"):
+        s = rep.sub("callers_buffer_overwritten_in_place",
+                    "the caller builds every message and holds every received block in ONE bitarray that it overwrites in place between calls (one-bit "
+                    "changes, a field counted up, one and two channel errors moved around, the first content again): encode, decode with and without "
+                    "repair, repair_if_necessary and deinterleave_all_bits answer for the buffer's present content (expected: the reference encoder / the "
+                    "message; otherwise the same call on a fresh object, taken first)")
+        base = env.det_bits("c02-reuse", K)
+        ms = [base]
+        for pos in (0, K - 1, K // 2, 17):
+            ms.append(ms[-1][:pos] + ("1" if ms[-1][pos] == "0" else "0") + ms[-1][pos + 1:])
+        ms += [base[:K - 3] + format(i, "03b") for i in range(8)] + [base]
+        cws = [ref_encode(m) for m in ms]
+        errs = [spaces.flip(c, (INFO_TX[(7 * i) % K],)) if i % 3 == 1 else (spaces.flip(c, (INFO_TX[(5 * i) % K], TX[2][(3 * i) % 15])) if i % 3 == 2 else c) for i, c in enumerate(cws)]
+        hist.reused_buffer(s, "bptc", [
+            ("encode", (lambda b: BPTC19696.encode(b).to01()), [bitarray(m) for m in ms], cws),
+            ("decode_without_repair", (lambda b: BPTC19696.deinterleave_data_bits(b, False).to01()), [bitarray(c) for c in cws], list(ms)),
+            ("decode_with_repair", (lambda b: BPTC19696.deinterleave_data_bits(b, True).to01()), [bitarray(e) for e in errs], None),
+            ("repair_if_necessary", (lambda b: BPTC19696.repair_if_necessary(b).to01()), [bitarray(e) for e in errs], None),
+            ("deinterleave_all_bits", (lambda b: BPTC19696.deinterleave_all_bits(b).to01()), [bitarray(e) for e in errs], None),
+        ], may_write=("repair_if_necessary", "decode_with_repair"))
+        s.done()
+
     if want("long_call_history"):
         s = rep.sub("long_call_history",
                     "encode / decode-with-repair of one fixed message called again and again in one process: the result never depends on how "
